@@ -76,8 +76,91 @@ fn try_parse<T: FromStr>(s: &str) -> &'static str {
     }
 }
 
-fn offer_all<B: Backend>(rec: &mut Recorder, items: &[Item]) -> u64 {
+fn try_cbor<T: serde::de::DeserializeOwned>(doc: &[u8]) -> &'static str {
+    // (ciborium's default scratch buffer is 4 KiB and longer strings are refused by the format library itself: RSA-4096 key texts)
+    match catch_unwind(AssertUnwindSafe(|| ciborium::de::from_reader_with_buffer::<T, _>(doc, &mut vec![0u8; 1 << 16][..]).is_ok())) {
+        Ok(true) => "ok",
+        Ok(false) => "err",
+        Err(_) => "panic",
+    }
+}
+
+/// the same offers through serde in a binary (not human-readable) format: the text as a CBOR text string, and - what a format-aware
+/// Serialize impl might write instead - the decoded body as a CBOR byte string, which carries no version or kind at all
+fn offer_serde<B: Backend>(rec: &mut Recorder, items: &[Item]) -> u64 {
     let mut n = 0;
+    for it in items {
+        let body_txt = if it.kind.starts_with("token") { it.text.split('.').nth(2).unwrap_or("") } else { it.text.rsplit('.').next().unwrap_or("") };
+        let mut forms: Vec<(&str, Vec<u8>)> = Vec::new();
+        let mut doc = Vec::new();
+        if ciborium::into_writer(&ciborium::Value::Text(it.text.clone()), &mut doc).is_ok() {
+            forms.push(("text", doc));
+        }
+        if let Some(body) = crate::b64::dec(body_txt) {
+            let mut doc = Vec::new();
+            if ciborium::into_writer(&ciborium::Value::Bytes(body), &mut doc).is_ok() {
+                forms.push(("bytes", doc));
+            }
+        }
+        for (form, doc) in &forms {
+            let mut emit = |dst_kind: &str, r: &str| {
+                rec.emit(json!({"fn":"xserde","form":form,"src_be":it.be,"src_ver":it.ver,"src_kind":it.kind,"dst_be":B::NAME,"dst_ver":B::VER,"dst_kind":dst_kind,"result":r,"ok":r == "ok"}));
+                n += 1;
+            };
+            emit("token.local", try_cbor::<SealedToken<B::V, Local, Raw, Vec<u8>>>(doc));
+            emit("token.public", try_cbor::<SealedToken<B::V, Public, Raw, Vec<u8>>>(doc));
+            emit("keytext.local", try_cbor::<KeyText<B::V, Local>>(doc));
+            emit("keytext.public", try_cbor::<KeyText<B::V, Public>>(doc));
+            emit("keytext.secret", try_cbor::<KeyText<B::V, Secret>>(doc));
+            emit("id.lid", try_cbor::<KeyId<B::V, Local>>(doc));
+            emit("id.pid", try_cbor::<KeyId<B::V, Public>>(doc));
+            emit("id.sid", try_cbor::<KeyId<B::V, Secret>>(doc));
+            emit("id.pkepid", try_cbor::<KeyId<B::V, PkePublic>>(doc));
+            emit("id.pkesid", try_cbor::<KeyId<B::V, PkeSecret>>(doc));
+            emit("pie.local", try_cbor::<PieWrappedKey<B::V, Local>>(doc));
+            emit("pie.secret", try_cbor::<PieWrappedKey<B::V, Secret>>(doc));
+            emit("pw.local", try_cbor::<PasswordWrappedKey<B::V, Local>>(doc));
+            emit("pw.secret", try_cbor::<PasswordWrappedKey<B::V, Secret>>(doc));
+            emit("seal", try_cbor::<SealedKey<B::V>>(doc));
+        }
+        // what this backend's own types write in the binary format: the text, header included
+        if it.be == B::NAME {
+            fn ser<T: FromStr + serde::Serialize>(text: &str) -> Option<bool> {
+                let v = T::from_str(text).ok()?;
+                let mut doc = Vec::new();
+                ciborium::into_writer(&v, &mut doc).ok()?;
+                let back: ciborium::Value = ciborium::from_reader(&doc[..]).ok()?;
+                Some(back == ciborium::Value::Text(text.to_string()))
+            }
+            let same = match it.kind {
+                "token.local" => ser::<SealedToken<B::V, Local, Raw, Vec<u8>>>(&it.text),
+                "token.public" => ser::<SealedToken<B::V, Public, Raw, Vec<u8>>>(&it.text),
+                "key.local" => ser::<KeyText<B::V, Local>>(&it.text),
+                "key.public" | "key.pkepublic" => ser::<KeyText<B::V, Public>>(&it.text),
+                "key.secret" | "key.pkesecret" => ser::<KeyText<B::V, Secret>>(&it.text),
+                "id.lid" => ser::<KeyId<B::V, Local>>(&it.text),
+                "id.pid" => ser::<KeyId<B::V, Public>>(&it.text),
+                "id.sid" => ser::<KeyId<B::V, Secret>>(&it.text),
+                "id.pkepid" => ser::<KeyId<B::V, PkePublic>>(&it.text),
+                "id.pkesid" => ser::<KeyId<B::V, PkeSecret>>(&it.text),
+                "pie.local" => ser::<PieWrappedKey<B::V, Local>>(&it.text),
+                "pie.secret" => ser::<PieWrappedKey<B::V, Secret>>(&it.text),
+                "pw.local" => ser::<PasswordWrappedKey<B::V, Local>>(&it.text),
+                "pw.secret" => ser::<PasswordWrappedKey<B::V, Secret>>(&it.text),
+                "seal" => ser::<SealedKey<B::V>>(&it.text),
+                _ => None,
+            };
+            if let Some(same) = same {
+                rec.emit(json!({"fn":"xser","be":B::NAME,"kind":it.kind,"binary_form_is_the_text":same}));
+                n += 1;
+            }
+        }
+    }
+    n
+}
+
+fn offer_all<B: Backend>(rec: &mut Recorder, items: &[Item]) -> u64 {
+    let mut n = offer_serde::<B>(rec, items);
     for it in items {
         let s = it.text.as_str();
         let mut emit = |dst_kind: &str, r: &str| {
